@@ -545,6 +545,9 @@ def acceptor_eval(ev, port, counters):
     _bump(counters, "acc_cls_" + cls)
     _bump(counters, "acc_rt_" + rt)
     _bump(counters, "acc_reaction_" + reaction)
+    if reaction == "closed":
+        # observed with N-EVENT-REPORT (served on a helper thread): connection closed without an A-ABORT PDU
+        _bump(counters, "acc_closed_without_abort_pdu_" + rt)
     if mode == "cmd-on-target":
         _bump(counters, "acc_split_cmd_evals")
     sfx = "" if mode == "same" else "|split-command-id"
